@@ -123,6 +123,24 @@ def run(chk):
     for op in ("not", "bnot"):
         C(f"unary/{op}", lambda a, op=op: E(S(op), a), 1, ("E", "SE", "S"), ctxkw=OPK, fn=RM + "compile_unary_operator", wrap=False)
         names.append(f"unary/{op}")
+    # real composite operands: a rule can inspect the node class of what a child compiled to (`not` of a comparison, of a
+    # boolean operation, of another `not`; an operator applied to operator results)
+    for cop in CMP:
+        nm = f"unary/not of ({cop} a b)"
+        C(nm, lambda a, b, cop=cop: E(S("not"), E(S(cop), a, b)), 2, ("E",), ctxkw=OPK, fn=RM + "compile_unary_operator", wrap=False)
+        names.append(nm)
+    for nm, mk in (("unary/not of (< a b c)", lambda a, b, c: E(S("not"), E(S("<"), a, b, c))),
+                   ("unary/not of (not a)", lambda a: E(S("not"), E(S("not"), a))),
+                   ("unary/not of (and a b)", lambda a, b: E(S("not"), E(S("and"), a, b))),
+                   ("unary/bnot of (bnot a)", lambda a: E(S("bnot"), E(S("bnot"), a))),
+                   ("unary/bnot of (- a)", lambda a: E(S("bnot"), E(S("-"), a))),
+                   ("maths/- of (- a b) c", lambda a, b, c: E(S("-"), E(S("-"), a, b), c)),
+                   ("maths/** of (- a) b", lambda a, b: E(S("**"), E(S("-"), a), b)),
+                   ("cmp/< of (< a b) c", lambda a, b, c: E(S("<"), E(S("<"), a, b), c))):
+        # (composite operands in a later position are left out: the reference follower orders whole sibling sub-forms, and
+        # the documentation leaves their relative order open)
+        C(nm, mk, mk.__code__.co_argcount, ("E",), ctxkw=OPK, wrap=False)
+        names.append(nm)
     for op, lo in CMP.items():
         for n in range(0, hi + 1):
             if n < lo:
